@@ -148,6 +148,15 @@ namespace
                         {
                             if (dlist_first_entry(h, CItem, lnk)->id != m[l].front() || dlist_last_entry(h, CItem, lnk)->id != m[l].back())
                                 violate("C01/c-dlist-entry", "%s: dlist_first_entry / dlist_last_entry of list %d differ from the reference", when, l);
+                            {
+                                // the pointer argument of the entry macros may be any expression (a conditional, pointer arithmetic)
+                                bool fwd = (m[l].size() & 1) != 0;
+                                CItem *e1 = dlist_entry(fwd ? h->next : h->prev, CItem, lnk);
+                                dlist_head *arr[2] = {h->prev, h->next};
+                                CItem *e2 = dlist_entry(*(arr + 1), CItem, lnk);
+                                if (e1->id != (fwd ? m[l].front() : m[l].back()) || e2->id != m[l].front())
+                                    violate("C01/c-dlist-entry", "%s: dlist_entry with a compound pointer expression gives the wrong element of list %d", when, l);
+                            }
                             for (size_t q = 0; q + 1 < m[l].size(); q++)
                             {
                                 CItem *a = it[m[l][q]].get(), *b = it[m[l][q + 1]].get();
@@ -856,6 +865,11 @@ namespace
                     if (!ms[l].empty())
                     {
                         if (slist_first_entry(sh[l].get(), SItem, sl)->id != ms[l].front()) violate("C01/slist-entry", "%s: slist_first_entry of list %d differs from the reference", when, l);
+                        {
+                            slist_head *hp = sh[l].get();
+                            SItem *e1 = slist_entry(ms[l].size() ? hp->next : hp, SItem, sl);
+                            if (e1->id != ms[l].front()) violate("C01/slist-entry", "%s: slist_entry with a conditional pointer expression gives the wrong element", when);
+                        }
                         for (size_t q = 0; q + 1 < ms[l].size(); q++)
                             if (slist_next_entry(it[ms[l][q]].get(), sl) != it[ms[l][q + 1]].get() || slist_entry(&it[ms[l][q]]->sl, SItem, sl) != it[ms[l][q]].get())
                                 violate("C01/slist-entry", "%s: slist_next_entry after position %zu of list %d differs from the reference", when, q, l);
@@ -1060,6 +1074,39 @@ namespace
             std::vector<char> in_all(nj, 0), in_ready(nj, 0), in_1(nj, 0), in_2(nj, 0);
             size_t longest = 0;
             int both = 0;
+            {
+                // records whose links sit far into the object (a large buffer in front of them): the node -> object mapping needs
+                // the full offset
+                struct BigRec
+                {
+                    char payload[70000];
+                    int id = 0;
+                    igris::dlist_node lnk;
+                    slist_head sl;
+                };
+                std::vector<std::unique_ptr<BigRec>> recs;
+                igris::dlist<BigRec, &BigRec::lnk> bl;
+                igris::slist<BigRec, &BigRec::sl> bs;
+                int nb = 2 + nj % 2;
+                for (int i = 0; i < nb; i++)
+                {
+                    recs.emplace_back(new BigRec());
+                    recs.back()->id = 100 + i;
+                    recs.back()->sl.next = &recs.back()->sl;
+                    bl.move_back(*recs.back());
+                    bs.add_first(*recs.back());
+                }
+                int q = 0;
+                for (auto &r : bl)
+                    if (&r != recs[(size_t)q].get() || r.id != 100 + q++) violate("C01/cxx-dlist-cast", "a dlist over records with the link 70000 bytes into the object yields the wrong objects");
+                if (q != nb || &bl.front() != recs.front().get() || &bl.back() != recs.back().get()) violate("C01/cxx-dlist-cast", "front()/back() of a dlist over large records give the wrong objects");
+                q = nb;
+                for (auto i = bs.begin(); i != bs.end(); ++i)
+                    if (&*i != recs[(size_t)--q].get()) violate("C01/cxx-slist-cast", "an slist over records with the link 70000 bytes into the object yields the wrong objects");
+                probe("link_far_into_the_object");
+                // (the lists die before the records)
+                bl.clear();
+            }
             if (nj > 1000) probe("population_over_1000");
             if (nj > 1000)
             {
